@@ -111,6 +111,7 @@ def convOp (st : DState) (line : String) : Option (DState × String) :=
         errHandler := errh == "1", friendlyQuery := fr, ourTag := natArg tag }
       some (st.put id c, "ok " ++ snapStr c)
   | ["tick", d] => some ({ st with now := st.now + natArg d }, "ok")
+  | ["setfrag", id, n] => (st.get id).map fun c => (st.put id { c with fragmentSize := natArg n }, "ok")
   | ["query", id] => (st.get id).map fun c => (st, hx (queryMessage c.policies c.friendlyQuery))
   | ["info", id] => (st.get id).map fun c =>
       let fp := match c.theirKey with
@@ -143,6 +144,21 @@ def convOp (st : DState) (line : String) : Option (DState × String) :=
       | "smpabort", [] => some <| runCall st id rl sl do
           let r ← tryCatch (do let ms ← abortAuthentication K; pure (ms, none)) (fun e => pure ([], some e))
           pure s!"send={hxList r.1} err={errStr r.2}"
+      | "sendtlvs", text :: rest =>
+        -- VerifSendTLVs: createSerializedDataMessage(text, IGNORE_UNREADABLE, tlvs); rest = type value type value …
+        let rec mk : List String → Option (List Tlv)
+          | [] => some []
+          | [_] => none
+          | ty :: v :: more =>
+            match unhx v, mk more with
+            | some v, some ts => some (⟨natArg ty, v.length % 65536, v⟩ :: ts)
+            | _, _ => none
+        match unhx text, mk rest with
+        | some text, some tlvs => some <| runCall st id rl sl do
+            let r ← tryCatch (do let (ms, _) ← createSerializedDataMessage K text messageFlagIgnoreUnreadable tlvs; pure (ms, none))
+              (fun e => pure ([], some e))
+            pure s!"send={hxList r.1} err={errStr r.2}"
+        | _, _ => none
       | "extrakey", [u, d] => (unhx d).map fun d => runCall st id rl sl do
           let (key, ms, e) ← useExtraSymmetricKey K (natArg u) d
           pure s!"key={hx key} send={hxList ms} err={errStr e}"
